@@ -785,8 +785,8 @@ pub fn space_twins() -> Vec<(String, String)> {
 }
 
 /// twenty small documents and six one-hole contexts: "what does this position keep when X meets Y there"
-pub const POS_DOCS: [&str; 20] = [
-    "null", "1", "\"s\"", "[]", "[1]", "[null]", "{}", "{\"a\":1}", "[1,\"x\"]", "[[]]", "[[],[]]", "[[],[null]]", "[[1],[2]]", "[[1],[\"x\"]]",
+pub const POS_DOCS: [&str; 22] = [
+    "null", "1", "\"s\"", "[]", "[1]", "[null]", "{}", "{\"a\":1}", "{\"a\":1,\"b\":null}", "{\"a\":1,\"b\":[]}", "[1,\"x\"]", "[[]]", "[[],[]]", "[[],[null]]", "[[1],[2]]", "[[1],[\"x\"]]",
     "[{\"x\":1}]", "[{\"x\":1},{\"y\":2}]", "[[{\"x\":1}],[{\"y\":2}]]", "[[{\"x\":1},{\"y\":2}],[{\"x\":3},{\"y\":4}]]", "[1,[2]]", "[[1,\"x\"],[2,\"y\"]]",
 ];
 pub const POS_CTX: [&str; 6] = ["[@,1]", "[\"g\",@]", "{\"k\":@}", "[@]", "[{\"k\":@},{}]", "{\"k\":[@,true]}"];
@@ -980,10 +980,12 @@ pub fn c09(r: &mut Rng, sz: &Sizes, out: &mut Vec<String>) {
     // one position (a tuple slot, a member, an array element, an optional member, ...) taken by every ordered pair of
     // twenty small documents, then each re-fed: what the position keeps when a tuple meets an array there, an array
     // a tuple, a narrower a wider one
-    for h in position_histories(false) {
+    for h in position_histories(true) {
         let hexes: Vec<String> = h.iter().map(|d| crate::wire::hex(d.as_bytes())).collect();
         out.push(format!("p_c09\t{k}\t{}\t!ok *", hexes.join("\t")));
-        out.push(format!("p_cycle\t{}", hexes.join("\t")));
+        if h.len() == 2 {
+            out.push(format!("p_cycle\t{}", hexes.join("\t")));
+        }
     }
     // groups of documents fed over and over in turn (a, b, a, b, ...): every ordered pair and a sample of
     // triples of the fixed documents, each also below a member and below an array; random groups
